@@ -45,13 +45,13 @@ func verifHarnessC12ApplyUpdates() {
 	assume(verifStoreInv(s))
 	// an arbitrary update set over known names: nil (= expired) or a new value
 	updates := map[string]*api.SecretValue{}
-	mapEachP(s.active.m, func(name string, _ *cachedSecret, present bool) {
+	for _, sl := range verifSlots {
 		var sv *api.SecretValue
 		if nondetBool("upd.isvalue") {
 			sv = &api.SecretValue{Value: nondetSeq("upd.val"), Version: api.SecretVersion(nondetU32("upd.ver"))}
 		}
-		mapPutIf(updates, name, sv, and(present, nondetBool("upd.p")))
-	})
+		mapPutIf(updates, sl.name, sv, and(sl.present, nondetBool("upd.p")))
+	}
 	// a watcher on one name
 	wname := nondetString("watched")
 	var w watcher
@@ -280,7 +280,7 @@ func (b *verifBuilt) Close() error { b.closed++; return nil }
 func verifHarnessC15Updater() {
 	verifEnvReset()
 	client := &verifClient{}
-	s := verifSymStore(1, client, nil)
+	s := verifSymStore(1, client, &verifCache{mayFail: true}) // the cache write of an install may fail: the install still reaches the updaters
 	assume(verifStoreInv(s))
 	s.active.f = map[string]Secret{}
 	name := nondetString("name")
@@ -400,8 +400,31 @@ func verifHarnessC16LookupWatcher() {
 	verifGuardStore(s)
 	ctx := &verifCtx{tag: "caller", hasDeadline: true, deadlineNS: 1 << 50}
 	builds := 0
+	// another goroutine may create its own updater for the same name and finish entirely inside this caller's lookup
+	// window: after this caller released the lock for the lookup and before its own flight starts
+	var u2 *Updater[int]
+	var err2 error
+	raced := false
+	if symbolic() {
+		verifSF.beforeLead = func() {
+			if nondetBool("concurrent.newupdater") {
+				raced = true
+				u2, err2 = NewUpdater(ctx, s, name, func(bs []byte) (int, error) { return len(bs), nil })
+			}
+		}
+	}
 	u, err := NewUpdater(ctx, s, name, func(bs []byte) (int, error) { builds++; return len(bs), nil })
 	guardOff()
+	if raced {
+		if err == nil && err2 == nil {
+			assert("concurrent-registration-not-lost", and(u != nil, u2 != nil, len(s.active.w[name]) == watchers0+2))
+			assert("handle-registered", mapHas(s.active.f, name))
+			reach("end-raced")
+		}
+		assert("lock-released-and-balanced", notHeld(&s.active.Mutex))
+		assert("inv", verifStoreInv(s))
+		return
+	}
 	assert("lock-released-and-balanced", notHeld(&s.active.Mutex))
 	assert("inv", verifStoreInv(s))
 	if known {
@@ -426,7 +449,7 @@ func verifHarnessC16LookupWatcher() {
 func verifHarnessC15TwoUpdaters() {
 	verifEnvReset()
 	client := &verifClient{}
-	s := verifSymStore(1, client, nil)
+	s := verifSymStore(1, client, &verifCache{mayFail: true})
 	assume(verifStoreInv(s))
 	s.active.f = map[string]Secret{}
 	name := nondetString("name")
